@@ -915,7 +915,9 @@ def _process_current_token_children(current_token, i, start, state, todo, tokens
         Token.t_complex_table,
         Token.t_complex_table_row,
         Token.t_complex_table_cell,
-    ):
+    ) or current_token.tagname == "ref":
+        # a footnote is rendered outside the running text: styles that are
+        # open around a <ref> do not apply to its content
         todo.append((i + 1, state, tokens))
         todo.append((0, {}, current_token.children))
     else:
